@@ -112,6 +112,19 @@ func vpParseFloatStub(s string, bits int) (float64, error) {
 
 // vpTemplate: 4+k bytes over the structural alphabet of the format.
 func vpTemplate(k int) []byte {
+	if k >= 10 {
+		// concrete structure with quoted and unquoted names of arbitrary
+		// bytes (all 256 values): what the reader accepts inside quotes the
+		// writer must emit so that it reads back
+		s := vpBytes("t", 3)
+		switch k {
+		case 10:
+			return []byte{'\'', s[0], s[1], '\'', ';'}
+		case 11:
+			return []byte{'(', s[0], ',', '\'', s[1], '\'', ')', s[2], ';'}
+		}
+		return []byte{'(', '\'', s[0], '\'', '\'', s[1], '\'', ':', '1', ')', ';', s[2]}
+	}
 	raw := vpBytes("t", 4+k)
 	const alpha = "(),:;'_ a1"
 	for _, c := range raw {
